@@ -63,20 +63,35 @@ package region
 
 // ---- hbase:meta row parsing (C11) ----
 
+// the identity of a region descriptor (table, name, key range, request specifier) is fixed at construction: this is what
+// makes hrpc.RegionInfo's Name/Table/StartKey/StopKey... functions of the object (contracts `pure`)
+//@ immutable[C01,C06,C08] region.info: id, namespace, table, name, startKey, stopKey, specifier in region.NewInfo
 //@ func region.NewInfo
 //@   modifies nothing
-//@   ensures r0 != nil
+//@   ensures r0 != nil && !was(allocated(r0)) && typeis(r0, "*region.info")
+//@   ensures[C01] sameslice(cast(r0, "*region.info").name, name) && sameslice(cast(r0, "*region.info").table, table) && sameslice(cast(r0, "*region.info").startKey, startKey) && sameslice(cast(r0, "*region.info").stopKey, stopKey)
+//@   ensures[C01] cast(r0, "*region.info").specifier != nil && sameslice(cast(r0, "*region.info").specifier.Value, name) && cast(r0, "*region.info").specifier.Type != nil && *cast(r0, "*region.info").specifier.Type == 1
+//@ func region.(*info).RegionSpecifier
+//@   modifies nothing
+//@   ensures r0 == i.specifier
+//@ func region.(*info).Name
+//@   modifies nothing
+//@   ensures sameslice(r0, i.name)
 
 //@ func region.infoFromCell
 //@   requires cell != nil
 //@   modifies nothing
 //@   panics never[C11]
 //@   ensures[C11] (r1 == nil) == (r0 != nil)
+//@   ensures r0 != nil ==> !was(allocated(r0))
 
 //@ func region.ParseRegionInfo
 //@   requires metaRow != nil
 //@   requires forall(k, 0 <= k && k < len(metaRow.Cells), metaRow.Cells[k] != nil)
+//@   modifies nothing
 //@   panics never[C11]
+//@   ensures r2 == nil ==> r0 != nil && !was(allocated(r0))
+//@   loop 1 invariant reg == nil || !was(allocated(reg))
 
 // ---- multi-requests: index mapping and response validation (C11, C02, C03) ----
 
